@@ -899,6 +899,12 @@ class Calls(Interp):
         instantiated on the occurring term)"""
         tb = self.uf('to_be%d' % length, z3.IntSort(), BYTES_SORT)
         be = self.uf('be', BYTES_SORT, z3.IntSort())
+        if z3.is_app(x) and x.decl().eq(be) and x.num_args() == 1:
+            # the encoding of the value decoded from an N-byte string is that string (be / to_be are inverse, A-STRUCT)
+            y = x.arg(0)
+            ln = self.norm_len(y, st)
+            if z3.is_int_value(ln) and ln.as_long() == length:
+                return V(y, BYTES)
         r = tb(x)
         self.add_func_axiom(z3.Length(r) == length)
         self.add_func_axiom(z3.Implies(z3.And(x >= 0, x < 256 ** length), be(r) == x))
